@@ -30,7 +30,12 @@ EXTRA_ONE = "let e{i} = {i};"
 EXTRA_THREE = "let g{i} = [\n    {i},\n];"
 
 PRELUDE = ["let ident = func (p) => p;", "let tt = {\n    have = 1,\n    sv = \"s\",\n};", "let ll = [\n    1,\n];",
-           "let sv = \"s\";", "let two = func (p, q) =>\n    p +\n    q;", "let ls = [\n    \"s\",\n];"]
+           "let sv = \"s\";", "let two = func (p, q) =>\n    p +\n    q;", "let ls = [\n    \"s\",\n];",
+           "let inc = func (n) =>\n    n +\n    1;", "let mm = module {\n    p = 1,\n} => (r) {\n    let r = mod.p + 1;\n};"]
+# A value of the wrong type handed to a function or a module: the fault is the call. At run time it
+# shows inside the callee, which is then the primary position with the calling statement listed as
+# VIA; both placements are accepted. {consumer: index of the callee's statement in PRELUDE}
+CALLEE = {"call-argument-type": 6, "module-parameter-type": 7}
 
 FAULTS = [
     ("unknown-name", "nosuch"),
@@ -74,6 +79,8 @@ CONSUMERS = [
     ("range-end", "1:(@P@)"),
     ("select-on-missing-arm", "select (@P@) => {\n        other = 1,\n    }"),
     ("map-over-non-collection", "map(ident, int(\"1\") + @P@)"),
+    ("call-argument-type", "inc(@P@)"),
+    ("module-parameter-type", "mm{p = @P@}"),
 ]
 for _cn, _ct in CONSUMERS:
     for _pn, _pt in PRODUCERS:
@@ -178,6 +185,7 @@ def work(chunk):
     viol = []
     evals = 0
     for desc, stmts, fi, ci in chunk:
+        callee = CALLEE.get(desc[0].split("<-")[0])
         for route in ("eval", "build"):
             base_pos = None
             for vname, vst, vfi, vci, shift in variants(stmts, fi, ci):
@@ -199,6 +207,15 @@ def work(chunk):
                     pos = first_pos(msg)
                     if pos is None:
                         bad = ("diagnostic-without-position", msg[:300])
+                    elif callee is not None and inside(pos, spans[callee]) and any(inside(v, spans[vfi]) for v in via_positions(msg)) \
+                            and (vci is None or any(inside(v, spans[vci]) for v in via_positions(msg))):
+                        # shows inside the callee, the faulty call is listed: accepted (the callee sits in the prelude,
+                        # above every inserted statement, so its position must not move at all)
+                        if vname == "base":
+                            base_pos = pos
+                        elif base_pos is not None and pos != base_pos:
+                            bad = ("position-moves-with-unrelated-statements:%s" % vname.split("-")[0],
+                                   {"base": base_pos, "lines_added_before": 0, "observed": pos, "message": msg[:300]})
                     elif not inside(pos, spans[vfi]):
                         where = "before" if pos[0] < spans[vfi][0] else "after"
                         bad = ("primary-position-%s-faulty-statement" % where, {"position": pos, "span": spans[vfi], "message": msg[:300]})
